@@ -756,6 +756,10 @@ def run(chk):
     # derived comparisons: every sign and magnitude of a user cmp, every spelling, one level up
     run_derived_sweep(chk, quick)
 
+    # (e) user functions and lambdas nested 2..7 deep, the innermost body naming variables of every level (closed form)
+    from . import deepcap
+    deepcap.deep_capture(chk, rng, 60 if quick else 1500, "c02")
+
     # (d) library functions outside the core model: exactly once / documented short circuits (implementation vs documentation)
     run_library_order(chk)
     return chk.finish(rule="(a) operator soups: generated expression texts (all 17 binary and 3 unary operators, parentheses, arrays, tuples, method / call / "
